@@ -241,9 +241,49 @@ def prop_star_dup(sh, case):
     return []
 
 
-PARTS = {'from': prop_from, 'in': prop_in, 'stardup': prop_star_dup}
+def hidden_cases():
+    """Outer queries whose ORDER BY / GROUP BY / WHERE use a sub-select column that is not selected, next to a selected
+    column (or same-shaped expression) of the same datatype: each column of the sub-select is its own column."""
+    import itertools
+    vals = [None, -1, 0, 2]
+    rows = [(i,) + r for i, r in enumerate(itertools.product(vals, vals))] * 1
+    table = {'name': 'm', 'cols': [('rid', 'int'), ('x', 'int'), ('y', 'int'), ('s', 'str'), ('t', 'str')],
+             'rows': [r + ('abc'[r[0] % 3], 'zyxw'[r[0] % 4]) for r in rows]}
+    col = lambda n: ['col', n]  # noqa: E731
+    one = ['const', 'int', 1]
+    out = []
+    for inner in (bql.select([(col('rid'), 'r'), (col('x'), 'a'), (col('y'), 'b'), (col('s'), 'c'), (col('t'), 'd')], ('table', 'm')),
+                  bql.select([(col('y'), 'b'), (col('t'), 'd'), (col('x'), 'a'), (col('s'), 'c'), (col('rid'), 'r')], ('table', 'm'),
+                             order_by=[(col('rid'), 'DESC')])):
+        frm = ('subq', inner)
+        for d in ('ASC', 'DESC'):
+            out += [bql.select([(col('a'), None)], frm, order_by=[(col('b'), d), (col('r'), 'ASC')]),
+                    bql.select([(col('b'), None)], frm, order_by=[(col('a'), d), (col('r'), 'ASC')]),
+                    bql.select([(col('c'), None)], frm, order_by=[(col('d'), d), (col('r'), 'ASC')]),
+                    bql.select([(['add', col('a'), one], 'e')], frm, order_by=[(['add', col('b'), one], d), (col('r'), 'ASC')]),
+                    bql.select([(col('a'), None), (col('r'), None)], frm, order_by=[(col('b'), d), (col('r'), d)]),
+                    bql.select([(['fn', 'upper', [col('c')]], 'u')], frm, order_by=[(['fn', 'upper', [col('d')]], d), (col('r'), 'ASC')])]
+        out += [bql.select([(['fn', 'max', [col('a')]], 'm'), (['fn', 'count', [['star']]], 'n')], frm, group_by=[col('b')]),
+                bql.select([(['fn', 'min', [col('c')]], 'm')], frm, group_by=[col('d')]),
+                bql.select([(['fn', 'sum', [col('b')]], 'm')], frm, group_by=[col('a')], order_by=[(col('a'), 'DESC')]),
+                bql.select([(col('a'), None)], frm, where=['gt', col('b'), ['const', 'int', 0]]),
+                bql.select([(col('c'), None)], frm, where=['eq', col('d'), ['const', 'str', 'z']]),
+                bql.select([(col('a'), None), (['fn', 'count', [['star']]], 'n')], frm, group_by=[col('a'), col('b')])]
+    return [{'tables': [table], 'sel': harness.force_aliases(s), 'text': bql.statement(s), 'via_ast': i % 2 == 0} for i, s in enumerate(out)]
+
+
+def prop_hidden(sh, case):
+    fails, info = harness.compare_select(case)
+    sh.record(jsonio.case_hash(case['text']), 'want' in info and len(info['want']) >= 2, {'text': case['text']})
+    return [(f'hidden:{s}', d) for s, d in fails]
+
+
+PARTS = {'from': prop_from, 'in': prop_in, 'stardup': prop_star_dup, 'hidden': prop_hidden}
 
 
 def run(sh):
+    for case in sh.mine(hidden_cases()):
+        for sig, detail in prop_hidden(sh, case):
+            sh.fail(sig, detail, case, 'hidden')
     sh.search('from', from_case(), prop_from, quick=3000, thorough=80000)
     sh.search('in', in_case(), prop_in, quick=3000, thorough=80000)
